@@ -82,11 +82,11 @@ AUDIT_TMPL = """import Lean
 import {module}
 open Lean Elab Command
 
-/-- every theorem of the GmqttVerif modules this property imports, with the axioms it depends on -/
+-- every theorem of the GmqttVerif modules this property imports, with the axioms it depends on
 run_cmd do
   let env ← getEnv
   let names := env.header.moduleNames
-  let mut n := 0
+  let mut n : Nat := 0
   let mut bad : Array String := #[]
   let mut used : Array Name := #[]
   for (c, ci) in env.constants.map₁.toList do
@@ -361,9 +361,11 @@ class Run:
         st["predicate_failures"], st["mismatches"] = len(pred_fail), len(mism)
         # --- property predicate failed on the implementation's own outputs: concrete failing input
         reported = 0
+        # one representative (the shortest case) per class of reason, so distinct violations are all reported
+        classes = {}
         for ops, why in sorted(pred_fail, key=lambda x: len(x[0])):
-            if reported >= 25:
-                break
+            classes.setdefault(re.sub(r"\d+", "N", why)[:80], (ops, why))
+        for ops, why in list(classes.values())[:12]:
             def fails(c):
                 return bool(stream.predicate(c, stream.impl([c])[0]))
             small = ddmin(ops, stream.keep_prefix, fails)
@@ -378,7 +380,7 @@ class Run:
             reported += 1
             body = self.render(stream, small, io, mo, f"property predicate fails on the implementation: {why}")
             self.violation(f"{stream.name}-pred{reported}", body, True, why)
-            if reported >= 3:
+            if reported >= 4:
                 break
         # --- outputs differ but the predicate holds: correspondence broken, search found no failing input
         reported = 0
